@@ -372,6 +372,10 @@ impl<VM: VMBinding> MarkCompactSpace<VM> {
         };
         let mut to_end = to_cursor + to_size;
         for (from_start, size) in self.pr.iterate_allocated_regions() {
+            if size == 0 {
+                // Nothing has been allocated since the space was emptied.
+                continue;
+            }
             let from_end = from_start + size;
             // linear scan the contiguous region
             for obj in self
@@ -417,6 +421,9 @@ impl<VM: VMBinding> MarkCompactSpace<VM> {
             if to.is_zero() {
                 // If no object survives, the bump pointer restarts at the first region.
                 to = from_start;
+            }
+            if size == 0 {
+                continue;
             }
             let from_end = from_start + size;
             for obj in self.linear_scan_objects(from_start..from_end) {
